@@ -446,7 +446,7 @@ class Tokenizer(object):
 # HACK: I couldn't get the parse() thing to work so I'm just not
 #       going to parse whitespace after EscapeSequences that end in
 #       non-letter characters as a half-assed solution.
-                        if next_code == CC_LETTER:
+                        if next_code == CC_LETTER or next_code == CC_SPACE:
                             # Absorb following whitespace
                             self.state = STATE_S
 
